@@ -129,24 +129,26 @@ Qed.
 
 (* ---------- the language's Type() against the creation-time type ---------- *)
 Lemma arr_type_some x r t :
-  arr_fallback x r = false -> arr_type x r = TSome t ->
-  exists tx, r = TSome tx /\ t = TNamed (NSlice (regname tx)).
+  arr_type x r = TSome t ->
+  t = TNamed NEmpty \/ exists tx, r = TSome tx /\ t = TNamed (NSlice (regname tx)).
 Proof.
-  unfold arr_type. intros F H. rewrite F in H.
-  destruct r as [| |t0]; try discriminate. exists t0; split; auto. inversion H; auto.
+  unfold arr_type. destruct (arr_fallback x r); intros H.
+  - inversion H; auto.
+  - destruct r as [|t0]; try discriminate. right. exists t0; split; auto. inversion H; auto.
 Qed.
 
-Lemma type_of_spec st : forall v t, no_fallback st v = true -> type_of st v = TSome t ->
+(* a well-formed type name (no generic "[]" inside) is the creation-time type's name as well *)
+Lemma type_of_spec st : forall v t, type_of st v = TSome t -> wf_ty t = true ->
   exists t', spec_type_of st v = Some t' /\ regname t' = regname t /\ ((forall id, v <> VInst id) -> t' = t).
 Proof.
-  induction v as [|n|n|n|b| | | |l HF|id|id|n] using value_ind'; intros t NF HT; simpl in HT; try discriminate;
+  induction v as [|n|n|n|b| | | |l HF|id|id|n] using value_ind'; intros t HT W; simpl in HT; try discriminate;
     try (inversion HT; subst; eexists; split; [reflexivity | split; [reflexivity | auto]]; fail).
   - (* arrays *)
     destruct l as [|x r].
-    + inversion HT; subst. exists (TNamed NEmpty); simpl; auto.
-    + simpl in NF. apply andb_prop in NF as [NF1 NF2]. apply negb_true_iff in NF1.
-      apply (arr_type_some _ _ _ NF1) in HT as [tx [Hx Ht]]. inversion HF as [|? ? Px Pr]; subst.
-      destruct (Px _ NF2 Hx) as [t' [S1 [S2 _]]].
+    + inversion HT; subst. discriminate W.
+    + apply arr_type_some in HT as [->|[tx [Hx Ht]]]; [discriminate W|]. subst t.
+      inversion HF as [|? ? Px Pr]; subst.
+      destruct (Px _ Hx W) as [t' [S1 [S2 _]]].
       exists (TNamed (NSlice (regname t'))). simpl. rewrite S1. rewrite S2. auto.
   - (* instance *)
     simpl. destruct (alookup id (st_store st)) as [i|]; try discriminate.
@@ -157,19 +159,6 @@ Proof.
     simpl. destruct (alookup id (st_store st)) as [i|]; try discriminate.
     inversion HT; subst. eexists; split; [reflexivity | split; [reflexivity | auto]].
 Qed.
-
-Lemma type_of_empty st v : no_fallback st v = true -> type_of st v = TSome (TNamed NEmpty) -> v = VArr [].
-Proof.
-  destruct v; simpl; intros NF H; try discriminate.
-  - destruct l as [|x r]; auto. apply andb_prop in NF as [NF1 _]. apply negb_true_iff in NF1.
-    apply (arr_type_some _ _ _ NF1) in H as [tx [_ Ht]]. discriminate.
-  - destruct (alookup id (st_store st)) as [i|]; try discriminate.
-    destruct (alookup (i_tname i) (st_reg st)); discriminate.
-  - destruct (alookup id (st_store st)); discriminate.
-Qed.
-
-Lemma value_clean_no_fallback st v : value_clean st v = true -> no_fallback st v = true.
-Proof. destruct v; simpl; auto. Qed.
 
 Lemma tname_eqb_refl : forall a, tname_eqb a a = true.
 Proof. induction a; simpl; auto using Nat.eqb_refl. destruct b; auto. Qed.
@@ -186,23 +175,22 @@ Proof.
   destruct l; [congruence | reflexivity].
 Qed.
 
-(* an accepted check of a clean value implies conformance to the declared type *)
+(* an accepted check of a clean value against a well-formed declared type implies conformance *)
 Lemma check_value_conforms st dt v :
-  value_clean st v = true -> check_value st dt v = VOk -> spec_conforms st v dt = true.
+  value_clean st v = true -> wf_ty dt = true -> check_value st dt v = VOk -> spec_conforms st v dt = true.
 Proof.
-  intros C H. unfold check_value in H.
-  destruct (type_of st v) as [| |ot] eqn:T; try discriminate.
-  - destruct v; try discriminate; auto;
-      match goal with l0 : list value |- _ => destruct l0; discriminate end.
+  intros C W H. unfold check_value in H.
+  destruct (type_of st v) as [|ot] eqn:T.
+  - destruct v; try discriminate; auto.
   - destruct (ty_eqb ot dt) eqn:E1.
     + apply ty_eqb_eq in E1; subst ot.
-      destruct (type_of_spec st v dt (value_clean_no_fallback _ _ C) T) as [t' [S1 [S2 S3]]].
+      destruct (type_of_spec st v dt T W) as [t' [S1 [S2 S3]]].
       destruct v as [|n|n|n|b| | | |l|id|id|n]; simpl in T; try discriminate T;
         try (rewrite spec_conforms_unfold by discriminate; rewrite S1;
              rewrite (S3 ltac:(intros; discriminate)); apply ty_eqb_refl).
       * (* array *)
         destruct l as [|x r].
-        -- inversion T; subst; auto.
+        -- inversion T; subst. discriminate W.
         -- rewrite spec_conforms_unfold by discriminate. rewrite S1.
            rewrite (S3 ltac:(intros; discriminate)). apply ty_eqb_refl.
       * (* instance: clean means created with the current definition *)
@@ -210,9 +198,41 @@ Proof.
         destruct (alookup id (st_store st)) as [i|]; try discriminate.
         destruct (alookup (i_tname i) (st_reg st)) as [e|]; try discriminate.
         inversion T; subst. apply gen_eqb_eq in C. rewrite C. apply ty_eqb_refl.
-    + destruct (ty_eqb ot (TNamed NEmpty)) eqn:E2; simpl in H; try discriminate.
+    + destruct (is_empty_arr v) eqn:E0; simpl in H; try discriminate.
+      destruct (ty_eqb ot (TNamed NEmpty)) eqn:E2; simpl in H; try discriminate.
       destruct (is_slice_name (regname dt)) eqn:E3; try discriminate.
-      apply ty_eqb_eq in E2; subst ot. apply type_of_empty in T; [subst v; simpl; auto | apply value_clean_no_fallback; auto].
+      destruct v; try discriminate E0. destruct l; try discriminate E0. simpl. auto.
+Qed.
+
+(* ---------- well-formed declared types ---------- *)
+Lemma eval_texpr_wf reg : forall te t, eval_texpr reg te = Some t -> wf_ty t = true.
+Proof.
+  induction te; simpl; intros t H.
+  - inversion H; auto.
+  - destruct (alookup s reg) as [e|]; try discriminate. destruct (bound_entry e); inversion H; auto.
+  - destruct (eval_texpr reg te) as [x|]; try discriminate. inversion H; subst. apply (IHte x); auto.
+  - destruct (eval_texpr reg te) as [x|]; try discriminate. inversion H; subst. apply (IHte x); auto.
+Qed.
+Lemma eval_fields_wf reg : forall l d, eval_fields reg l = Some d -> forallb (fun ft => wf_ty (snd ft)) d = true.
+Proof.
+  induction l as [|[f te] r IH]; simpl; intros d H.
+  - inversion H; auto.
+  - destruct (eval_texpr reg te) as [x|] eqn:E; try discriminate.
+    destruct (eval_fields reg r) as [d0|]; try discriminate. inversion H; subst. simpl.
+    rewrite (eval_texpr_wf _ _ _ E). simpl. apply IH; auto.
+Qed.
+Lemma lookup_field_wf : forall d f t,
+  forallb (fun ft => wf_ty (snd ft)) d = true -> lookup_field d f = Some t -> wf_ty t = true.
+Proof.
+  induction d as [|[f' t'] r IH]; simpl; intros f t W H; try discriminate.
+  apply andb_prop in W as [W1 W2].
+  destruct (lookup_field r f) as [t2|] eqn:L.
+  - inversion H; subst. eapply IH; eauto.
+  - destruct (Nat.eqb f f'); inversion H; subst; auto.
+Qed.
+Lemma reg_okb_lookup reg s e : reg_okb reg = true -> alookup s reg = Some e -> entry_okb e = true.
+Proof.
+  unfold reg_okb. rewrite forallb_forall. intros H A. apply alookup_in in A. apply (H _ A).
 Qed.
 
 (* ---------- every instance keeps its type name and the generation of its definition ---------- *)
@@ -280,30 +300,31 @@ Qed.
 
 Lemma inst_okb_ext st st' i : sig_ext st st' -> inst_okb st i = true -> inst_okb st' i = true.
 Proof.
-  intros E. unfold inst_okb. destruct (re_defn (i_fac i)) as [d|]; auto.
+  intros E. unfold inst_okb. intros H. apply andb_prop in H as [H0 H]. rewrite H0. simpl.
+  destruct (re_defn (i_fac i)) as [d|]; auto. revert H.
   rewrite !forallb_forall. intros H x Hx. specialize (H x Hx).
   unfold field_okb in *. destruct (fst x); try discriminate.
   destruct (lookup_field d f); try discriminate.
   eapply spec_conforms_ext; eauto.
 Qed.
 
-Lemma invb_lookup st id i : invb st = true -> alookup id (st_store st) = Some i -> inst_okb st i = true.
+Lemma sinvb_lookup st id i : sinvb st = true -> alookup id (st_store st) = Some i -> inst_okb st i = true.
 Proof.
-  unfold invb. rewrite forallb_forall. intros H A. apply alookup_in in A. apply (H _ A).
+  unfold sinvb. rewrite forallb_forall. intros H A. apply alookup_in in A. apply (H _ A).
 Qed.
 
-Lemma invb_store_same st st' : st_store st' = st_store st -> invb st = true -> invb st' = true.
+Lemma sinvb_store_same st st' : st_store st' = st_store st -> sinvb st = true -> sinvb st' = true.
 Proof.
-  intros E H. unfold invb in *. rewrite E. rewrite forallb_forall in *. intros x Hx.
+  intros E H. unfold sinvb in *. rewrite E. rewrite forallb_forall in *. intros x Hx.
   apply inst_okb_ext with (st := st); auto. apply sig_ext_same_store; auto.
 Qed.
 
-Lemma invb_store_aset st st' id i' :
-  invb st = true -> st_store st' = aset id i' (st_store st) -> sig_ext st st' ->
-  inst_okb st' i' = true -> invb st' = true.
+Lemma sinvb_store_aset st st' id i' :
+  sinvb st = true -> st_store st' = aset id i' (st_store st) -> sig_ext st st' ->
+  inst_okb st' i' = true -> sinvb st' = true.
 Proof.
-  intros H E X O. unfold invb. rewrite E. apply forallb_aset; auto.
-  unfold invb in H. rewrite forallb_forall in *. intros x Hx.
+  intros H E X O. unfold sinvb. rewrite E. apply forallb_aset; auto.
+  unfold sinvb in H. rewrite forallb_forall in *. intros x Hx.
   apply inst_okb_ext with (st := st); auto.
 Qed.
 
@@ -313,10 +334,17 @@ Proof. unfold adopt. intros ->. auto. Qed.
 
 Lemma check_value_notsym st dt v : check_value st dt v <> VNotSym.
 Proof.
-  unfold check_value. destruct (type_of st v) as [| |ot]; try discriminate.
-  - destruct v; try discriminate. destruct l; discriminate.
+  unfold check_value. destruct (type_of st v) as [|ot]; try discriminate.
+  - destruct v; discriminate.
   - destruct (ty_eqb ot dt); try discriminate.
-    destruct (ty_eqb ot (TNamed NEmpty) && is_slice_name (regname dt)); discriminate.
+    destruct (is_empty_arr v && ty_eqb ot (TNamed NEmpty) && is_slice_name (regname dt)); discriminate.
+Qed.
+
+Lemma inst_okb_split st i d : re_defn (i_fac i) = Some d ->
+  inst_okb st i = true <->
+  (forallb (fun ft => wf_ty (snd ft)) d = true /\ forallb (field_okb st d) (i_fields i) = true).
+Proof.
+  intros D. unfold inst_okb, entry_okb. rewrite D. rewrite andb_true_iff. tauto.
 Qed.
 
 Lemma hash_set_typed st i d f v vd i' :
@@ -331,9 +359,10 @@ Proof.
       try (repeat split; auto; congruence);
       try (exfalso; eapply check_value_notsym; eauto; fail).
     simpl. repeat split; auto; try congruence.
-    unfold inst_okb in *. simpl. rewrite D in *.
+    apply (inst_okb_split st i d D) in O as [W O].
+    apply (inst_okb_split st _ d); [simpl; auto|]. split; auto. simpl.
     apply forallb_fset; auto. unfold field_okb. simpl. rewrite L.
-    apply check_value_conforms; auto.
+    apply check_value_conforms; auto. eapply lookup_field_wf; eauto.
   - inversion H; subst. repeat split; auto.
 Qed.
 
@@ -383,11 +412,12 @@ Proof.
 Qed.
 
 Lemma check_record_ok st i d : re_defn (i_fac i) = Some d ->
+  forallb (fun ft => wf_ty (snd ft)) d = true ->
   forall l, check_record st i l = VOk ->
   (forall k v, In (k, v) l -> value_clean st v = true) ->
   forallb (field_okb st d) l = true.
 Proof.
-  intros D. induction l as [|[k v] r IH]; simpl; auto. intros H C.
+  intros D W. induction l as [|[k v] r IH]; simpl; auto. intros H C.
   unfold type_check_field in H. destruct k; simpl in H; try discriminate.
   rewrite (adopt_typed _ _ _ D) in H. rewrite D in H.
   destruct (lookup_field d f) as [dt|] eqn:L; simpl in H; try discriminate.
@@ -396,6 +426,35 @@ Proof.
   rewrite check_value_conforms; auto.
   - simpl. apply IH; auto. intros k0 v0 I. apply (C k0 v0). auto.
   - apply (C (KSym f) v). auto.
+  - eapply lookup_field_wf; eauto.
+Qed.
+
+(* the factory of an instance is always a registry entry or the bare one MakeHash made *)
+Lemma adopt_fac_ok st i : reg_okb (st_reg st) = true -> entry_okb (i_fac i) = true ->
+  entry_okb (i_fac (adopt st i)) = true.
+Proof.
+  intros R O. unfold adopt. destruct (re_defn (i_fac i)); auto.
+  destruct (alookup (i_tname i) (st_reg st)) as [e|] eqn:A; auto.
+  destruct (re_defn e) eqn:D; auto. simpl. eapply reg_okb_lookup; eauto.
+Qed.
+Lemma hash_set_fac_ok st i k v vd i' : reg_okb (st_reg st) = true -> entry_okb (i_fac i) = true ->
+  hash_set st i k v = (vd, i') -> entry_okb (i_fac i') = true.
+Proof.
+  intros R O. unfold hash_set, type_check_field.
+  pose proof (adopt_fac_ok st i R O) as A.
+  destruct k; try (intros H; inversion H; subst; simpl; auto; fail).
+  destruct (re_defn (i_fac (adopt st i))) as [d|].
+  - destruct (lookup_field d f) as [dt|]; [destruct (check_value st dt v)|]; intros H; inversion H; subst; simpl; auto.
+  - intros H; inversion H; subst; simpl; auto.
+Qed.
+Lemma hash_set_all_fac_ok st : forall args i vd i', reg_okb (st_reg st) = true -> entry_okb (i_fac i) = true ->
+  hash_set_all st i args = (vd, i') -> entry_okb (i_fac i') = true.
+Proof.
+  induction args as [|[k v] r IH]; simpl; intros i vd i' R O H.
+  - inversion H; subst; auto.
+  - destruct (hash_set st i k v) as [x y] eqn:HS.
+    pose proof (hash_set_fac_ok _ _ _ _ _ _ R O HS) as Y.
+    destruct x; try (inversion H; subst; auto; fail). eapply IH; eauto.
 Qed.
 
 Lemma hash_set_all_bare st : forall args i vd i',
@@ -416,67 +475,86 @@ Proof.
 Qed.
 
 Lemma make_hash_ok st s args i reg' :
+  reg_okb (st_reg st) = true ->
   make_hash st s args = (VOk, i, reg') ->
   (forall k v, In (k, v) args -> value_clean st v = true) ->
   inst_okb st i = true.
 Proof.
-  unfold make_hash. intros H C.
+  unfold make_hash. intros R H C.
   remember {| i_tname := s;
               i_fac := match alookup s (st_reg st) with
                        | Some e => e
                        | None => {| re_gen := GBare (st_clock st); re_defn := None |}
                        end;
               i_fields := [] |} as i0.
+  assert (O0 : entry_okb (i_fac i0) = true).
+  { subst i0. simpl. destruct (alookup s (st_reg st)) eqn:A; auto. eapply reg_okb_lookup; eauto. }
   destruct (hash_set_all st i0 args) as [vd i1] eqn:HA.
+  pose proof (hash_set_all_fac_ok _ _ _ _ _ R O0 HA) as O1.
   destruct (hash_set_all_fields _ _ _ _ _ HA) as [N F].
   assert (CF : forall k v, In (k, v) (i_fields i1) -> value_clean st v = true).
   { intros k v I. destruct (F _ _ I) as [I2|I2]; [eapply C; eauto|]. subst i0. simpl in I2. contradiction. }
   destruct vd; try (inversion H; fail).
-  unfold inst_okb. destruct (re_defn (i_fac i)) as [d|] eqn:D; auto.
+  assert (EI : i = i1).
+  { destruct (alookup s (st_reg st)) as [e|]; [destruct (re_defn e)|]; inversion H; auto. }
+  subst i1. unfold inst_okb. rewrite O1. simpl.
+  destruct (re_defn (i_fac i)) as [d|] eqn:D; auto.
+  assert (W : forallb (fun ft => wf_ty (snd ft)) d = true).
+  { unfold entry_okb in O1. rewrite D in O1. auto. }
   destruct (alookup s (st_reg st)) as [e|] eqn:E.
   - destruct (re_defn e) as [d0|] eqn:DE.
-    + inversion H; subst i1. eapply check_record_ok; eauto.
-    + inversion H; subst i1. exfalso.
+    + inversion H. eapply check_record_ok; eauto.
+    + exfalso.
       assert (X : re_defn (i_fac i) = None).
       { eapply hash_set_all_bare; [| |exact HA]; subst i0; simpl; auto.
         intros e0 E0. rewrite E in E0. inversion E0; subst; auto. }
       congruence.
-  - inversion H; subst i1. exfalso.
+  - exfalso.
     assert (X : re_defn (i_fac i) = None).
     { eapply hash_set_all_bare; [| |exact HA]; subst i0; simpl; auto.
       intros e0 E0. rewrite E in E0. discriminate. }
     congruence.
 Qed.
 
-(* ---------- every operation preserves the invariant ---------- *)
-Definition good (st st' : state) : Prop := invb st' = true /\ sig_ext st st'.
+Lemma make_hash_reg st s args vd i reg' :
+  reg_okb (st_reg st) = true -> make_hash st s args = (vd, i, reg') -> reg_okb reg' = true.
+Proof.
+  unfold make_hash. intros R.
+  destruct (hash_set_all st _ args) as [x y].
+  destruct x; try (intros H; inversion H; subst; auto; fail).
+  destruct (alookup s (st_reg st)) as [e|]; [destruct (re_defn e)|]; intros H; inversion H; subst; auto.
+  apply forallb_aset; auto.
+Qed.
 
-Lemma good_refl st : invb st = true -> good st st.
+(* ---------- every operation preserves the invariant ---------- *)
+Definition good (st st' : state) : Prop := sinvb st' = true /\ sig_ext st st'.
+
+Lemma good_refl st : sinvb st = true -> good st st.
 Proof. intros H; split; auto. apply sig_ext_same_store; auto. Qed.
 
-Lemma good_set_reg st r : invb st = true -> good st (set_reg st r).
-Proof. intros H; split; [apply invb_store_same with (st := st); auto | apply sig_ext_same_store; auto]. Qed.
+Lemma good_set_reg st r : sinvb st = true -> good st (set_reg st r).
+Proof. intros H; split; [apply sinvb_store_same with (st := st); auto | apply sig_ext_same_store; auto]. Qed.
 
 Lemma good_put_fresh st r id i :
-  invb st = true -> alookup id (st_store st) = None -> inst_okb st i = true ->
+  sinvb st = true -> alookup id (st_store st) = None -> inst_okb st i = true ->
   good st (put (set_reg st r) id i).
 Proof.
   intros H F O.
   assert (X : sig_ext st (put (set_reg st r) id i))
     by (apply sig_ext_aset_fresh with (id := id) (i' := i); [exact F | reflexivity]).
-  split; auto. apply invb_store_aset with (st := st) (id := id) (i' := i); auto.
+  split; auto. apply sinvb_store_aset with (st := st) (id := id) (i' := i); auto.
   apply inst_okb_ext with (st := st); auto.
 Qed.
 
 Lemma good_put_shape st id i i' :
-  invb st = true -> alookup id (st_store st) = Some i ->
+  sinvb st = true -> alookup id (st_store st) = Some i ->
   i_tname i' = i_tname i -> re_gen (i_fac i') = re_gen (i_fac i) -> inst_okb st i' = true ->
   good st (put st id i').
 Proof.
   intros H F T G O.
   assert (X : sig_ext st (put st id i'))
     by (apply sig_ext_aset_shape with (id := id) (i := i) (i' := i'); auto).
-  split; auto. apply invb_store_aset with (st := st) (id := id) (i' := i'); auto.
+  split; auto. apply sinvb_store_aset with (st := st) (id := id) (i' := i'); auto.
   apply inst_okb_ext with (st := st); auto.
 Qed.
 
@@ -485,9 +563,10 @@ Lemma forallb_values_clean st (args : list (key * value)) :
   forall k v, In (k, v) args -> value_clean st v = true.
 Proof. rewrite forallb_forall. intros H k v I. apply (H _ I). Qed.
 
-Lemma step_op_good st o : invb st = true -> clean st o = true -> good st (snd (step_op st o)).
+Lemma step_op_good st o : reg_okb (st_reg st) = true -> sinvb st = true -> clean st o = true ->
+  good st (snd (step_op st o)).
 Proof.
-  intros I C. destruct o as [s l|id s args|r id k v|id f g v|id k|id v|ko id s args]; simpl.
+  intros R I C. destruct o as [s l|id s args|r id k v|id f g v|id k|id v|ko id s args]; simpl.
   - (* Declare *)
     unfold declare. destruct (eval_fields _ l); simpl; apply good_set_reg; auto.
   - (* Construct *)
@@ -498,7 +577,7 @@ Proof.
     destruct (make_hash st s args) as [[vd i] reg] eqn:M.
     destruct vd; try (apply good_refl; auto; fail).
     destruct (alookup id (st_store st)) eqn:F; try discriminate.
-    apply good_put_fresh; auto. eapply make_hash_ok; eauto. apply forallb_values_clean; auto.
+    apply good_put_fresh; auto. eapply (make_hash_ok st); eauto. apply forallb_values_clean; auto.
   - (* Write *)
     simpl in C. apply andb_prop in C as [C CT]. apply andb_prop in C as [CK CV].
     destruct (negb (route_key_ok r k)); [apply good_refl; auto|].
@@ -508,7 +587,7 @@ Proof.
     destruct (hash_set st i k v) as [vd i'] eqn:HS. simpl.
     destruct k as [f| |]; try discriminate.
     unfold typed_inst in CT. destruct (re_defn (i_fac i)) as [d|] eqn:D; try discriminate.
-    destruct (hash_set_typed _ _ _ _ _ _ _ D HS CV (invb_lookup _ _ _ I A)) as [T [F [O _]]].
+    destruct (hash_set_typed _ _ _ _ _ _ _ D HS CV (sinvb_lookup _ _ _ I A)) as [T [F [O _]]].
     eapply good_put_shape; eauto. congruence.
   - (* Nested *)
     simpl in C. apply andb_prop in C as [CV CT].
@@ -520,12 +599,13 @@ Proof.
     destruct (hash_set st ij (KSym g) v) as [vd ij'] eqn:HS. simpl.
     unfold target_typed in CT. rewrite AJ in CT.
     unfold typed_inst in CT. destruct (re_defn (i_fac ij)) as [d|] eqn:D; try discriminate.
-    destruct (hash_set_typed _ _ _ _ _ _ _ D HS CV (invb_lookup _ _ _ I AJ)) as [T [F [O _]]].
+    destruct (hash_set_typed _ _ _ _ _ _ _ D HS CV (sinvb_lookup _ _ _ I AJ)) as [T [F [O _]]].
     eapply good_put_shape; eauto. congruence.
   - (* Delete *)
     destruct (alookup id (st_store st)) as [i|] eqn:A; [|apply good_refl; auto]. simpl.
     eapply good_put_shape; eauto.
-    pose proof (invb_lookup _ _ _ I A) as O. unfold inst_okb in *. simpl.
+    pose proof (sinvb_lookup _ _ _ I A) as O. unfold inst_okb in *. simpl.
+    apply andb_prop in O as [O1 O2]. rewrite O1. simpl.
     destruct (re_defn (i_fac i)); auto. apply forallb_fdel; auto.
   - (* DerefSet *)
     destruct (alookup id (st_store st)) as [i|] eqn:A; [|apply good_refl; auto].
@@ -536,14 +616,14 @@ Proof.
     destruct (alookup id0 (st_store st)) as [ij|] eqn:AJ; [|apply good_refl; auto].
     destruct (Nat.eqb (i_tname i) (i_tname ij)) eqn:E; [|apply good_refl; auto]. simpl.
     simpl in C. rewrite A, AJ in C. apply gen_eqb_eq in C. apply Nat.eqb_eq in E.
-    eapply good_put_shape; eauto. eapply invb_lookup; eauto.
+    eapply good_put_shape; eauto. eapply sinvb_lookup; eauto.
   - (* Decode *)
     simpl in C. apply andb_prop in C as [CF CV]. unfold fresh_id in CF.
     destruct (negb (forallb _ args)); [apply good_refl; auto|].
     destruct (make_hash st s _) as [[vd i] reg] eqn:M.
     destruct vd; try (apply good_refl; auto; fail).
     destruct (alookup id (st_store st)) eqn:F; try discriminate.
-    apply good_put_fresh; auto. eapply make_hash_ok; eauto.
+    apply good_put_fresh; auto. eapply (make_hash_ok st); eauto.
     (* JSON values are never instances: clean for every value of the sorted, re-keyed list *)
     intros k v0 IN. apply in_map_iff in IN as [[f0 v1] [EQ IN]]. inversion EQ; subst.
     assert (S : forall l a, In a (sort_args l) -> In a l).
@@ -558,12 +638,43 @@ Proof.
     rewrite forallb_forall in CV. apply (CV (f0, v0)). apply S; auto.
 Qed.
 
+Lemma step_op_reg st o : reg_okb (st_reg st) = true -> reg_okb (st_reg (snd (step_op st o))) = true.
+Proof.
+  intros R. destruct o as [s l|id s args|r id k v|id f g v|id k|id v|ko id s args]; simpl.
+  - unfold declare.
+    assert (R1 : reg_okb (aset s {| re_gen := GPh (st_clock st); re_defn := Some [] |} (st_reg st)) = true)
+      by (apply forallb_aset; auto).
+    destruct (eval_fields _ l) as [d|] eqn:E; simpl; auto.
+    apply forallb_aset; auto. simpl. unfold entry_okb. simpl. eapply eval_fields_wf; eauto.
+  - destruct (alookup s (st_reg st)) as [e|]; auto.
+    destruct (negb (bound_entry e)); auto. destruct (negb (forallb _ args)); auto.
+    destruct (make_hash st s args) as [[vd i] reg] eqn:M.
+    pose proof (make_hash_reg _ _ _ _ _ _ R M). destruct vd; simpl; auto.
+  - destruct (negb (route_key_ok r k)); auto. destruct (negb (value_ok st v)); auto.
+    destruct (alookup id (st_store st)); auto. destruct (hash_set st i k v); auto.
+  - destruct (negb (value_ok st v)); auto. destruct (alookup id (st_store st)) as [i|]; auto.
+    destruct (flookup (KSym f) (i_fields i)) as [x|]; auto. destruct x; auto.
+    destruct (alookup id0 (st_store st)) as [ij|]; auto. destruct (hash_set st ij (KSym g) v); auto.
+  - destruct (alookup id (st_store st)); auto.
+  - destruct (alookup id (st_store st)) as [i|]; auto.
+    repeat match goal with
+           | |- reg_okb (st_reg (snd (if negb ?b then _ else _))) = true => destruct b; simpl; auto
+           end.
+    destruct v; auto. destruct (alookup id0 (st_store st)) as [ij|]; auto.
+    destruct (Nat.eqb (i_tname i) (i_tname ij)); auto.
+  - destruct (negb (forallb _ args)); auto.
+    destruct (make_hash st s _) as [[vd i] reg] eqn:M.
+    pose proof (make_hash_reg _ _ _ _ _ _ R M). destruct vd; simpl; auto.
+Qed.
+
 Theorem step_preserves_inv st o :
   invb st = true -> clean st o = true -> invb (snd (step st o)) = true.
 Proof.
-  intros I C. unfold step. destruct (step_op st o) as [oc st'] eqn:E. simpl.
-  pose proof (step_op_good st o I C) as [G _]. rewrite E in G. simpl in G.
-  apply invb_store_same with (st := st'); auto.
+  unfold invb. intros I C. apply andb_prop in I as [R I].
+  unfold step. destruct (step_op st o) as [oc st'] eqn:E. simpl.
+  pose proof (step_op_good st o R I C) as [G _]. pose proof (step_op_reg st o R) as R'.
+  rewrite E in G, R'. simpl in G, R'. rewrite R'. simpl.
+  apply sinvb_store_same with (st := st'); auto.
 Qed.
 
 Theorem keeps_creation_defn st o :
@@ -572,8 +683,9 @@ Theorem keeps_creation_defn st o :
   exists i', alookup id (st_store (snd (step st o))) = Some i' /\ i_tname i' = i_tname i /\
              re_gen (i_fac i') = re_gen (i_fac i).
 Proof.
-  intros I C. unfold step. destruct (step_op st o) as [oc st'] eqn:E. simpl.
-  pose proof (step_op_good st o I C) as [_ G]. rewrite E in G. simpl in G. exact G.
+  unfold invb. intros I C. apply andb_prop in I as [R I].
+  unfold step. destruct (step_op st o) as [oc st'] eqn:E. simpl.
+  pose proof (step_op_good st o R I C) as [_ G]. rewrite E in G. simpl in G. exact G.
 Qed.
 
 Theorem reachable_inv : forall h st,
